@@ -412,6 +412,13 @@ struct byte_lexer
         if (b < 0x40 || b > 0x7f) return ctpg::recognized_term{};
         int idx = (b - 0x40) / 4, len = (b - 0x40) % 4 + 1;
         if (idx >= NTerms || len > avail) return ctpg::recognized_term{};
+        if (len % 2 == 0)
+        {
+            // (the answer is "a simple struct with two members": filled in by assignment as well as through the constructor)
+            ctpg::recognized_term r;
+            r.term_idx = ctpg::size16_t(idx); r.len = size_t(len);
+            return r;
+        }
         return ctpg::recognized_term(ctpg::size16_t(idx), size_t(len));
     }
 };
@@ -427,10 +434,13 @@ struct CtxAmp { int mut = 0; int tag = 11; std::optional<Node> last; int refs = 
 inline CtxAmp& amp_decoy() { static thread_local CtxAmp d; return d; }
 inline CtxAmp* CtxAmp::operator&() { return std::addressof(amp_decoy()); }
 inline const CtxAmp* CtxAmp::operator&() const { return std::addressof(amp_decoy()); }
+// a SMALL, trivially copyable context (two ints - it fits a register pair): still the caller's object, never a copy
+struct CtxSmall { int mut = 0; int tag = 13; };
+static_assert(std::is_trivially_copy_constructible_v<CtxSmall> && sizeof(CtxSmall) <= 2 * sizeof(void*), "CtxSmall must be small and trivially copyable");
 inline thread_local const void* tl_ctx_addr = nullptr;
 
 // contextual rule functor (attached with >>=): logs which object it was handed (identity, constness), mutates it if allowed
-template<typename T> struct is_ctx : std::bool_constant<std::is_same_v<std::decay_t<T>, Ctx> || std::is_same_v<std::decay_t<T>, CtxMO> || std::is_same_v<std::decay_t<T>, CtxAmp> || std::is_same_v<std::decay_t<T>, ctpg::no_type>> {};
+template<typename T> struct is_ctx : std::bool_constant<std::is_same_v<std::decay_t<T>, Ctx> || std::is_same_v<std::decay_t<T>, CtxMO> || std::is_same_v<std::decay_t<T>, CtxAmp> || std::is_same_v<std::decay_t<T>, CtxSmall> || std::is_same_v<std::decay_t<T>, ctpg::no_type>> {};
 template<typename... X> struct first_is_ctx : std::false_type {};
 template<typename X0, typename... X> struct first_is_ctx<X0, X...> : is_ctx<X0> {};
 struct RuleFC
@@ -487,7 +497,7 @@ struct RuleFCR
     decltype(auto) operator()(C&& ctx, A&&... a) const
     {
         const RuleFC f{r};
-        if constexpr (!std::is_const_v<std::remove_reference_t<C>> && !std::is_same_v<std::decay_t<C>, ctpg::no_type>)
+        if constexpr (!std::is_const_v<std::remove_reference_t<C>> && !std::is_same_v<std::decay_t<C>, ctpg::no_type> && !std::is_same_v<std::decay_t<C>, CtxSmall>)
         {
             Node n = f(ctx, std::forward<A>(a)...);
             ctx.last.emplace(std::move(n)); ctx.refs++;
@@ -499,6 +509,7 @@ struct RuleFCR
 };
 // what the caller reads in its context after the call: the mutation count, negative when a kept result is gone
 template<typename C> long ctx_after(const C& c) { return (c.refs && (!c.last || !c.last->t)) ? -1000 - c.mut : c.mut; }
+inline long ctx_after(const CtxSmall& c) { return c.mut; }
 
 // ---------------------------------------------------------------- job / trace plumbing
 struct Job
@@ -648,6 +659,8 @@ std::optional<Node> parse_with(const P& p, const Job& j, std::string& stream_tex
         if (j.ctx == 3) { Ctx c; tl_ctx_addr = &c; auto r = dflt_opts ? p.context_parse(std::move(c), buf, cs) : p.context_parse(std::move(c), o, buf, cs); L.ctxmut = ctx_after(c); return r; }
         if (j.ctx == 4) { CtxMO c; tl_ctx_addr = &c; auto r = dflt_opts ? p.context_parse(c, buf, cs) : p.context_parse(c, o, buf, cs); L.ctxmut = ctx_after(c); return r; }
         if (j.ctx == 6) { CtxAmp c; tl_ctx_addr = std::addressof(c); auto r = dflt_opts ? p.context_parse(c, buf, cs) : p.context_parse(c, o, buf, cs); L.ctxmut = ctx_after(c) + 1000 * amp_decoy().mut; amp_decoy().mut = 0; return r; }
+        if (j.ctx == 7) { const CtxSmall c; tl_ctx_addr = &c; auto r = dflt_opts ? p.context_parse(c, buf, cs) : p.context_parse(c, o, buf, cs); L.ctxmut = ctx_after(c); return r; }
+        if (j.ctx == 8) { CtxSmall c; tl_ctx_addr = &c; auto r = dflt_opts ? p.context_parse(std::move(c), buf, cs) : p.context_parse(std::move(c), o, buf, cs); L.ctxmut = ctx_after(c); return r; }
         { CtxMO c; tl_ctx_addr = &c; auto r = dflt_opts ? p.context_parse(std::move(c), buf, cs) : p.context_parse(std::move(c), o, buf, cs); L.ctxmut = ctx_after(c); return r; }
     };
     if (j.buf == 1)
